@@ -29,3 +29,4 @@ func ReportRaces()                         {}
 func ReportHeapRaces()                     {}
 func LiveGoroutines() int                  { return 0 }
 func Ite(c bool, a, b int) int            { if c { return a }; return b }
+func Digest(label, text string)            {}
